@@ -371,7 +371,7 @@ func (c *Ctx) rulePathSeg(rule string) {
 			}
 		}
 	}
-	c.R.Floor(rule, 20)
+	c.R.Floor(rule, 14)
 }
 
 func isAddSegOf(e ssa.Value, childErr func(ssa.Value) bool) bool {
